@@ -171,8 +171,14 @@ extern "C" {
         const int32_t parsing_failed = -3;
         const int32_t result_ok = 0;
         auto result = dllexports::with_instance_do(instance, [&](dllexports::instance& ref) -> int32_t {
-            // This call has no call data: its diagnostics must not carry the pointer of an earlier sqfvm_call
-            ref.logger->call_data = NULL;
+            // This call has no call data: its diagnostics must not carry the pointer of an earlier sqfvm_call.
+            // When it is issued from the log callback of a running sqfvm_call, that call gets its call data back afterwards.
+            struct call_data_scope
+            {
+                void*& slot; void* outer;
+                call_data_scope(void*& s) : slot(s), outer(s) { slot = NULL; }
+                ~call_data_scope() { slot = outer; }
+            } scope(ref.logger->call_data);
             auto ppedStr = ref.runtime->parser_preprocessor().preprocess(
                 *ref.runtime, std::string_view(contents, length), { "dllexports"sv, {} });
 
